@@ -81,10 +81,15 @@ def roundtrip_block(args):
     u = real()
     codes = np.arange(lo, lo + n, dtype=np.int64)
     raw = codes_to_bytes(codes, b)
-    dec = u.decode_pcm_samples(raw, b)
-    enc = bytes(u.encode_pcm_samples(dec, b))
-    want = codes_to_bytes(canon_codes(codes, b), b)
     res = {"b": b, "lo": lo, "n": n, "bad": [], "range_bad": []}
+    try:
+        with np.errstate(all="ignore"):
+            dec = u.decode_pcm_samples(raw, b)
+            enc = bytes(u.encode_pcm_samples(dec, b))
+    except Exception as e:  # an exception on whole-sample bytes is a failure of the property, not of the harness
+        res["bad"].append((int(lo), "exception %r on the block of %d codes starting here" % (e, n), None, None))
+        return res
+    want = codes_to_bytes(canon_codes(codes, b), b)
     dec = np.asarray(dec)
     if dec.shape != (n,) or dec.dtype != np.float64:
         res["bad"].append((int(lo), "shape/dtype %s %s" % (dec.shape, dec.dtype), None, None))
@@ -169,6 +174,7 @@ class C16(Spec):
             "encode_clips",
             "rn53_error",
             "rn53_snap",
+            "rn53_exact",
             "div_mul_exact",
             "pack_unpack",
             "unpack_pack",
@@ -202,17 +208,30 @@ class C16(Spec):
 
     # ------------------------------------------------------------------ correspondence
 
-    def _real_decode_encode(self, codes, b):
+    def _real_decode_encode(self, ctx, codes, b):
+        """Real decode and re-encode of the given codes; None (and a recorded disagreement) if the real code
+        raises or returns something that is not one float64 / one code per input code."""
         u = real()
-        dec = np.asarray(u.decode_pcm_samples(codes_to_bytes(codes, b), b))
-        enc = bytes_to_codes(bytes(u.encode_pcm_samples(dec, b)), b)
-        return dec, enc
+        try:
+            with np.errstate(all="ignore"):
+                dec = np.asarray(u.decode_pcm_samples(codes_to_bytes(codes, b), b))
+                raw = bytes(u.encode_pcm_samples(dec, b))
+            if dec.dtype != np.float64 or dec.shape != (len(codes),) or len(raw) != len(codes) * (b // 8):
+                raise ValueError("decoded %s %s, %d bytes re-encoded for %d codes" % (dec.dtype, dec.shape, len(raw), len(codes)))
+            return dec, bytes_to_codes(raw, b)
+        except Exception as e:
+            ctx.disagree("real decode/encode raised or returned a malformed result",
+                         {"bitdepth": b, "first_code": int(codes[0]), "n": len(codes)}, "total on codes", repr(e))
+            return None
 
     def _corr_codes(self, ctx, drv, b, codes, label):
         codes = list(codes)
         lines = ["D %d %s" % (b, " ".join(map(str, codes[i:i + 4096]))) for i in range(0, len(codes), 4096)]
         outs = " ".join(drv.run(lines)).split()
-        dec, enc = self._real_decode_encode(codes, b)
+        r = self._real_decode_encode(ctx, codes, b)
+        if r is None:
+            return
+        dec, enc = r
         bits = bits_of(dec)
         impl = ["%016x:%d" % (int(w), int(e)) for w, e in zip(bits, enc)]
         ctx.count("corr:%s:b=%d" % (label, b), len(codes))
@@ -240,7 +259,10 @@ class C16(Spec):
         idx = np.arange(1, size + 1, dtype=np.uint64)
         for lo, mo in zip(wins, mouts):
             codes = np.arange(lo, lo + size, dtype=np.int64)
-            dec, enc = self._real_decode_encode(codes, b)
+            r = self._real_decode_encode(ctx, codes, b)
+            if r is None:
+                return
+            dec, enc = r
             w = bits_of(dec)
             s1 = int(w.sum(dtype=np.uint64))
             s2 = int((w * idx).sum(dtype=np.uint64))
@@ -301,8 +323,15 @@ class C16(Spec):
             assert not np.isnan(arr).any()
             lines = ["E %d %s" % (b, " ".join(hex_of_double(x) for x in arr[i:i + 2048])) for i in range(0, len(arr), 2048)]
             outs = [int(t) for t in " ".join(drv.run(lines)).split()]
-            with np.errstate(all="ignore"):
-                enc = bytes_to_codes(bytes(u.encode_pcm_samples(arr, b)), b)
+            try:
+                with np.errstate(all="ignore"):
+                    raw = bytes(u.encode_pcm_samples(arr, b))
+                if len(raw) != len(arr) * (b // 8):
+                    raise ValueError("%d bytes for %d samples" % (len(raw), len(arr)))
+                enc = bytes_to_codes(raw, b)
+            except Exception as e:
+                ctx.disagree("real encode raised / malformed (%s)" % name, {"bitdepth": b, "n": len(arr)}, outs[:3], repr(e))
+                continue
             ctx.count("corr:encode-double:%s:b=%d" % (name, b), len(arr))
             # informative: how many of these inputs distinguish truncation from rounding, and how many clip
             with np.errstate(all="ignore"):
@@ -345,6 +374,8 @@ class C16(Spec):
                 uo = " ".join(str(int(c)) for c in seen) if len(seen) else "-"
             except ValueError:
                 out, uo = "none", "none"
+            except Exception as e:
+                out = uo = "exception:" + type(e).__name__
             lines.append("B %d %s" % (b, hexb(bs))); expect.append(out); metas.append(("B", b, hexb(bs)))
             lines.append("U %d %s" % (b, hexb(bs))); expect.append(uo); metas.append(("U", b, hexb(bs)))
             ctx.count("corr:bytes:len%%step=%s:b=%d" % ("0" if ln % step == 0 else "nonzero", b))
@@ -355,8 +386,11 @@ class C16(Spec):
             cs = [rng.choice([0, 1, -1, M, -M, M - 1, 1 - M, rng.randint(-M, M)]) for _ in range(rng.randint(0, 9))]
             arr = np.array(cs, dtype=np.float64) / M
             # the float that encodes to c: use the real decoder's own value so that P is about the byte layout only
-            dec = np.asarray(u.decode_pcm_samples(codes_to_bytes(cs, b), b)) if cs else np.zeros(0)
-            out = hexb(bytes(u.encode_pcm_samples(dec, b)))
+            try:
+                dec = np.asarray(u.decode_pcm_samples(codes_to_bytes(cs, b), b)) if cs else np.zeros(0)
+                out = hexb(bytes(u.encode_pcm_samples(dec, b)))
+            except Exception as e:
+                out = "exception:" + type(e).__name__
             lines.append("P %d %s" % (b, " ".join(map(str, cs)))); expect.append(out); metas.append(("P", b, cs))
             ctx.count("corr:pack:b=%d" % b)
         # I / X: interleave, deinterleave on integer-valued arrays
@@ -365,8 +399,11 @@ class C16(Spec):
             nf = rng.choice([0, 1, 2, 3, rng.randint(0, 12)])
             vals = [rng.randint(-99, 99) for _ in range(nf * ch)]
             a = np.array(vals, dtype=np.float64).reshape(nf, ch)
-            r = np.asarray(u.interleave(a))
-            out = " ".join(str(int(v)) for v in r) if r.size else "-"
+            try:
+                r = np.asarray(u.interleave(a))
+                out = (" ".join(str(int(v)) for v in r) if r.size else "-") if r.ndim == 1 else "shape %s" % (r.shape,)
+            except Exception as e:
+                out = "exception:" + type(e).__name__
             lines.append("I %d %d %s" % (ch, nf, " ".join(map(str, vals)))); expect.append(out); metas.append(("I", ch, vals))
             ln = rng.choice([nf * ch, nf * ch, rng.randint(0, 30)])
             flat = [rng.randint(-99, 99) for _ in range(ln)]
@@ -378,20 +415,58 @@ class C16(Spec):
                     out = " | ".join(" ".join(str(int(v)) for v in row) for row in d) if d.shape[0] else "-"
             except ValueError:
                 out = "none"
+            except Exception as e:
+                out = "exception:" + type(e).__name__
             lines.append("X %d %s" % (ch, " ".join(map(str, flat)))); expect.append(out); metas.append(("X", ch, flat))
             ctx.count("corr:interleave:channels=%d" % ch)
             ctx.count("corr:deinterleave:%s" % ("whole-frames" if ln % ch == 0 else "partial-frame"))
         outs = drv.run(lines)
         for line, mo, io, meta in zip(lines, outs, expect, metas):
-            ctx.case(("bytes", line), True, sample={"request": line[:120], "answer": mo[:120]})
+            ctx.case(("bytes", line), True, sample={"request": line[:120], "answer": mo[:120]} if len(line) % 16 == 0 else None)
             if mo != io:
                 ctx.disagree("byte-level op %s" % meta[0], line[:400], mo[:400], io[:400])
             else:
                 ctx.validated()
 
+    def _corr_arith(self, ctx, drv, n):
+        """The rounding model alone against the hardware: rn53(a/b), rn53(a*b) vs numpy float64 `/` and `*`
+        on random operands (results kept in the normal range, where the unbounded-exponent model applies)."""
+        rng = ctx.rng
+        a = np.empty(n); b = np.empty(n)
+        for i in range(n):
+            k = rng.random()
+            if k < 0.4:      # integers and the PCM scales
+                a[i] = rng.choice((1, -1)) * rng.randrange(1, 2 ** rng.randint(1, 53))
+                b[i] = rng.choice([2 ** 15 - 1, 2 ** 23 - 1, 2 ** 31 - 1, rng.randrange(1, 2 ** rng.randint(1, 53))])
+            elif k < 0.8:    # full 53-bit significands, moderate exponents
+                a[i] = math.ldexp(rng.choice((1, -1)) * (2 ** 52 + rng.getrandbits(52)), rng.randint(-300, 200))
+                b[i] = math.ldexp(rng.choice((1, -1)) * (2 ** 52 + rng.getrandbits(52)), rng.randint(-300, 200))
+            else:            # few significant bits: products/quotients that are exact or exact ties
+                a[i] = math.ldexp(rng.getrandbits(rng.randint(1, 30)) + 1, rng.randint(-60, 60))
+                b[i] = math.ldexp(rng.getrandbits(rng.randint(1, 30)) + 1, rng.randint(-60, 60))
+        with np.errstate(all="ignore"):
+            qd, pr = a / b, a * b
+        outs = drv.run(["A %s %s" % (hex_of_double(x), hex_of_double(y)) for x, y in zip(a, b)])
+        qb, pb = bits_of(qd), bits_of(pr)
+        tiny = 2.2250738585072014e-308
+        for i in range(n):
+            mq, mp = outs[i].split()
+            for op, mo, val, w in (("/", mq, qd[i], qb[i]), ("*", mp, pr[i], pb[i])):
+                if not (tiny <= abs(val) < float("inf")):
+                    ctx.count("corr:arith:result-outside-normal-range-skipped")
+                    continue
+                ctx.count("corr:arith:" + op)
+                ctx.case(("A", op, hex_of_double(a[i]), hex_of_double(b[i])), True,
+                         sample={"a": hex_of_double(a[i]), "op": op, "b": hex_of_double(b[i]), "rn53": mo} if i % 50 == 0 else None)
+                if mo != "%016x" % int(w):
+                    ctx.disagree("rn53 vs float64 hardware " + op, {"a": hex_of_double(a[i]), "b": hex_of_double(b[i])}, mo, "%016x" % int(w))
+                else:
+                    ctx.validated()
+
     def correspond(self, ctx):
         drv = Driver("c16driver", "Earverif.Driver.C16")
         q = ctx.quick
+        self._corr_arith(ctx, drv, 3000 if q else 60000)
         # every 16-bit code, listed
         self._corr_codes(ctx, drv, 16, range(-(2 ** 15), 2 ** 15), "all-codes")
         for b in (24, 32):
@@ -401,7 +476,7 @@ class C16(Spec):
             self._corr_codes(ctx, drv, b, stratified_codes(ctx.rng, b, 40 if q else 400), "stratified-per-binade")
         if q:
             for b in (24, 32):
-                self._corr_windows(ctx, drv, b, windows(ctx.rng, b, 12, 4096), 4096, 12)
+                self._corr_windows(ctx, drv, b, windows(ctx.rng, b, 32, 8192), 8192, 16)
         else:
             # all 2^24 codes of 24 bit through the native driver, 256 blocks of 65536 on 16 driver processes
             size = 65536
@@ -439,8 +514,16 @@ class C16(Spec):
             pos = [x for x in pos if x > 1.0]
             for sign, want in ((1, M), (-1, -M)):
                 arr = np.array(pos, dtype=np.float64) * sign
-                with np.errstate(all="ignore"):
-                    got = bytes_to_codes(bytes(u.encode_pcm_samples(arr, b)), b)
+                try:
+                    with np.errstate(all="ignore"):
+                        raw = bytes(u.encode_pcm_samples(arr, b))
+                    if len(raw) != len(arr) * (b // 8):
+                        raise ValueError("%d bytes for %d samples" % (len(raw), len(arr)))
+                    got = bytes_to_codes(raw, b)
+                except Exception as e:
+                    ctx.hit("exception / malformed output encoding values outside [-1, 1]",
+                            {"bitdepth": b, "samples": [repr(float(x)) for x in arr[:5]]}, {"exception": repr(e)}, ["clip"])
+                    continue
                 ctx.count("search:clip:b=%d" % b, len(arr))
                 ctx.cov["evaluations"] += len(arr) - 1
                 ctx.case(("clip", b, sign, len(arr)), True)
@@ -452,10 +535,13 @@ class C16(Spec):
                             {"encoded": int(got[i]), "expected": want, "mismatches": len(badi)}, ["clip"])
             # full scale itself and the in-range neighbours must not be treated as outside
             arr = np.array([1.0, -1.0, 0.0, -0.0], dtype=np.float64)
-            got = bytes_to_codes(bytes(u.encode_pcm_samples(arr, b)), b)
+            try:
+                got = bytes_to_codes(bytes(u.encode_pcm_samples(arr, b)), b)
+            except Exception as e:
+                got = [repr(e)]
             if list(got) != [M, -M, 0, 0]:
                 ctx.hit("full scale / zero not encoded exactly", {"bitdepth": b, "samples": [1.0, -1.0, 0.0, -0.0]},
-                        {"encoded": [int(x) for x in got], "expected": [M, -M, 0, 0]}, ["clip"])
+                        {"encoded": [x if isinstance(x, str) else int(x) for x in got], "expected": [M, -M, 0, 0]}, ["clip"])
 
     def _interleaving(self, ctx, deep):
         """Multi-channel: bytes -> decode -> deinterleave -> interleave -> encode -> canonical bytes, and
@@ -464,11 +550,14 @@ class C16(Spec):
         rng = ctx.rng
         for t in range(600 if deep else 150):
             b = rng.choice(DEPTHS)
-            ch = rng.randint(1, 12) if t else 1
+            ch = rng.randint(1, 12)
             nf = rng.choice([0, 1, 2, rng.randint(1, 40)])
             M = scale(b)
             pool = [0, 1, -1, M, -M, -M - 1, M - 1]
             codes = [rng.choice(pool) if rng.random() < 0.3 else rng.randint(-M - 1, M) for _ in range(nf * ch)]
+            if t < 36:  # small systematic cases first, so that a failure is reported on a readable input
+                b, ch, nf = DEPTHS[t % 3], t % 6 + 1, t // 12 + 1
+                codes = list(range(1, nf * ch + 1))
             raw = codes_to_bytes(codes, b)
             want = codes_to_bytes(canon_codes(codes, b), b) if codes else b""
             ctx.count("search:interleave:channels=%d" % ch)
@@ -499,7 +588,7 @@ class C16(Spec):
             tasks += [(32, lo, 2 ** 23) for lo in range(-(2 ** 31), 2 ** 31, 2 ** 23)]
             ctx.notes.append("32 bit: all 2^32 codes through the real decode/encode")
         else:
-            size = 2 ** 18
+            size = 2 ** 20
             wins = windows(ctx.rng, 32, 48, size)
             tasks += [(32, lo, size) for lo in wins]
             ctx.notes.append("32 bit (quick): %d blocks of %d consecutive codes: both ends, around 0 and +-2^f, random" % (len(wins), size))
@@ -507,8 +596,10 @@ class C16(Spec):
         nproc = min(16, os.cpu_count() or 1)
         if len(tasks) > 4 and nproc > 1:
             with multiprocessing.get_context("fork").Pool(nproc) as pool:
-                for res in pool.imap_unordered(roundtrip_block, tasks, chunksize=1):
-                    self._report_block(ctx, res)
+                results = list(pool.imap_unordered(roundtrip_block, tasks, chunksize=1))
+            # report in a fixed order (depth, then blocks nearest to code 0 first) so that replays are stable
+            for res in sorted(results, key=lambda r: (r["b"], min(abs(r["lo"]), abs(r["lo"] + r["n"])), r["lo"])):
+                self._report_block(ctx, res)
         else:
             for t in tasks:
                 self._report_block(ctx, roundtrip_block(t))
